@@ -53,3 +53,164 @@ Definition avx512_bss_decode_float_block (count : nat) (src : list N) (i : nat) 
 
 Definition avx512_bss_decode_float (count : nat) (src out : list N) : res (list N) :=
   simd_loop 16 count (avx512_bss_decode_float_block count src) (bss_dec_step 4 count src) out.
+
+(* ------------------------------------------------------------------ prefix sums *)
+Local Open Scope N_scope.
+From Carquet Require Import Simd.SseKernels Simd.Avx2Kernels.
+
+(** carquet_avx512_prefix_sum_i32, body of `for (; i + 16 <= count; i += 16)`; the running sum is re-read
+    from the array (`sum = values[i + 15]`) *)
+Definition avx512_psum32_block (i : nat) (st : list N * N) : res (list N * N) :=
+  let '(buf, sum) := st in
+  let z := zeros 64 in
+  let* v := load buf (i * 4)%nat 64 in
+  let v := add_lanes 4 v (mm512_maskz_alignr_epi32 0xFFFE v z 15) in
+  let v := add_lanes 4 v (mm512_maskz_alignr_epi32 0xFFFC v z 14) in
+  let v := add_lanes 4 v (mm512_maskz_alignr_epi32 0xFFF0 v z 12) in
+  let v := add_lanes 4 v (mm512_maskz_alignr_epi32 0xFF00 v z 8) in
+  let v := add_lanes 4 v (mm512_set1_epi32 sum) in
+  let* buf := store buf (i * 4)%nat v in
+  let* last := load buf ((i + 15) * 4)%nat 4 in
+  Ok (buf, le_num last).
+
+Definition avx512_prefix_sum_i32 (count : nat) (buf : list N) (initial : N) : res (list N) :=
+  rmap fst (simd_loop 16 count avx512_psum32_block (psum_step 4) (buf, initial mod 2 ^ 32)).
+
+(** carquet_avx512_prefix_sum_i64, body of `for (; i + 8 <= count; i += 8)` *)
+Definition avx512_psum64_block (i : nat) (st : list N * N) : res (list N * N) :=
+  let '(buf, sum) := st in
+  let z := zeros 64 in
+  let* v := load buf (i * 8)%nat 64 in
+  let v := add_lanes 8 v (mm512_maskz_alignr_epi64 0xFE v z 7) in
+  let v := add_lanes 8 v (mm512_maskz_alignr_epi64 0xFC v z 6) in
+  let v := add_lanes 8 v (mm512_maskz_alignr_epi64 0xF0 v z 4) in
+  let v := add_lanes 8 v (mm512_set1_epi64 sum) in
+  let* buf := store buf (i * 8)%nat v in
+  let* last := load buf ((i + 7) * 8)%nat 8 in
+  Ok (buf, le_num last).
+
+Definition avx512_prefix_sum_i64 (count : nat) (buf : list N) (initial : N) : res (list N) :=
+  rmap fst (simd_loop 8 count avx512_psum64_block (psum_step 8) (buf, initial mod 2 ^ 64)).
+
+(* ------------------------------------------------------------------ dictionary gather *)
+
+(** carquet_avx512_gather_i32 / _float: 16 per iteration (zmm gather), then 8 (ymm gather), then one *)
+Definition avx512_gather32_block16 (dict idxs : list N) (i : nat) (out : list N) : res (list N) :=
+  let* idx := load idxs (i * 4)%nat 64 in
+  let* r := hw_gather 4 16 dict idx in
+  store out (i * 4)%nat r.
+Definition avx512_gather_i32 (count : nat) (dict idxs out : list N) : res (list N) :=
+  let n16 := (count / 16)%nat in
+  let* out := iter_blocks n16 16 0 (avx512_gather32_block16 dict idxs) out in
+  let i := (16 * n16)%nat in
+  let n8 := ((count - i) / 8)%nat in
+  let* out := iter_blocks n8 8 i (avx2_gather32_block dict idxs) out in
+  let i := (i + 8 * n8)%nat in
+  iter_blocks (count - i) 1 i (gather_step 4 dict idxs) out.
+Definition avx512_gather_float := avx512_gather_i32.
+
+(** carquet_avx512_gather_i64 / _double: 8 per iteration, then one *)
+Definition avx512_gather64_block (dict idxs : list N) (i : nat) (out : list N) : res (list N) :=
+  let* idx := load idxs (i * 4)%nat 32 in
+  let* r := hw_gather 8 8 dict idx in
+  store out (i * 8)%nat r.
+Definition avx512_gather_i64 (count : nat) (dict idxs out : list N) : res (list N) :=
+  simd_loop 8 count (avx512_gather64_block dict idxs) (gather_step 8 dict idxs) out.
+Definition avx512_gather_double := avx512_gather_i64.
+
+(* ------------------------------------------------------------------ memset / memcpy *)
+
+Definition avx512_memset (n : nat) (value : N) (out : list N) : res (list N) :=
+  let n256 := (n / 256)%nat in
+  let* out := set_chunks (4 * n256) 64 (set1_epi8 64 value) out 0 in
+  let d := (256 * n256)%nat in
+  let n64 := ((n - d) / 64)%nat in
+  let* out := set_chunks n64 64 (set1_epi8 64 value) out d in
+  let d := (d + 64 * n64)%nat in
+  let n32 := ((n - d) / 32)%nat in
+  let* out := set_chunks n32 32 (set1_epi8 32 value) out d in
+  let d := (d + 32 * n32)%nat in
+  let n16 := ((n - d) / 16)%nat in
+  let* out := set_chunks n16 16 (set1_epi8 16 value) out d in
+  let d := (d + 16 * n16)%nat in
+  set_chunks (n - d) 1 [value mod 256] out d.
+
+Definition avx512_memcpy (n : nat) (src out : list N) : res (list N) :=
+  let n256 := (n / 256)%nat in
+  let* out := copy_chunks2 n256 256 src out 0 in
+  let d := (256 * n256)%nat in
+  let n64 := ((n - d) / 64)%nat in
+  let* out := copy_chunks2 n64 64 src out d in
+  let d := (d + 64 * n64)%nat in
+  let n32 := ((n - d) / 32)%nat in
+  let* out := copy_chunks2 n32 32 src out d in
+  let d := (d + 32 * n32)%nat in
+  let n16 := ((n - d) / 16)%nat in
+  let* out := copy_chunks2 n16 16 src out d in
+  let d := (d + 16 * n16)%nat in
+  copy_chunks2 (n - d) 1 src out d.
+
+(* ------------------------------------------------------------------ booleans *)
+
+(** carquet_avx512_unpack_bools, body of `for (; i + 64 <= count; i += 64)` *)
+Definition avx512_unpack_bools_block (inp : list N) (i : nat) (out : list N) : res (list N) :=
+  let* packed := load inp (i / 8)%nat 8 in
+  store out i (mm512_maskz_set1_epi8 (le_num packed) 1).
+Definition avx512_unpack_bools (count : nat) (inp out : list N) : res (list N) :=
+  simd_loop 64 count (avx512_unpack_bools_block inp) (unpack_step inp) out.
+
+(** carquet_avx512_pack_bools: 64 per iteration, then ONE masked iteration for the remainder *)
+Definition avx512_pack_bools_block (inp : list N) (i : nat) (out : list N) : res (list N) :=
+  let* bools := load inp i 64 in
+  store out (i / 8)%nat (le_bytes 8 (mm512_test_epi8_mask bools bools)).
+Definition avx512_pack_bools (count : nat) (inp out : list N) : res (list N) :=
+  let n64 := (count / 64)%nat in
+  let* out := iter_blocks n64 64 0 (avx512_pack_bools_block inp) out in
+  let i := (64 * n64)%nat in
+  if (i <? count)%nat then
+    let remaining := (count - i)%nat in
+    (* _mm512_maskz_loadu_epi8(load_mask, input + i): only the first `remaining` bytes are accessed *)
+    let* x := load inp i remaining in
+    let bools := x ++ zeros (64 - remaining) in
+    let result_mask := mm512_test_epi8_mask bools bools in
+    let bytes_to_write := ((remaining + 7) / 8)%nat in
+    store out (i / 8)%nat (firstn bytes_to_write (le_bytes 8 result_mask))
+  else Ok out.
+
+(* ------------------------------------------------------------------ run length *)
+
+Fixpoint avx512_run_blocks (nb : nat) (vals first : list N) (i : nat) : res (nat * bool) :=
+  match nb with
+  | O => Ok (i, false)
+  | S nb' =>
+      let* v := load vals (i * 4)%nat 64 in
+      let cmp := mm512_cmpeq_epi32_mask v (flat_map (fun _ => first) (seq 0 16)) in
+      if cmp =? 0xFFFF then avx512_run_blocks nb' vals first (i + 16)
+      else Ok ((i + N.to_nat (ctz32 (N.lxor cmp 0xFFFFFFFF)))%nat, true)
+  end.
+Definition avx512_find_run_length (count : nat) (vals : list N) : res nat :=
+  match count with
+  | O => Ok O
+  | _ => let* first := load vals 0 4 in
+         let* r := avx512_run_blocks (count / 16) vals first 0 in
+         let '(i, done) := r in
+         if done then Ok i else run_scan (count - i) vals first i count
+  end.
+
+(* ------------------------------------------------------------------ fixed-width bit unpackers *)
+
+Definition avx512_bitunpack32_8bit (inp : list N) : res (list N) :=
+  let* lo := load inp 0 16 in
+  let* hi := load inp 16 16 in
+  Ok (mm512_cvtepu8_epi32 lo ++ mm512_cvtepu8_epi32 hi).
+
+Definition avx512_bitunpack16_16bit (inp : list N) : res (list N) :=
+  let* words := load inp 0 32 in Ok (mm512_cvtepu16_epi32 words).
+
+Definition avx512_bitunpack32_4bit (inp : list N) : res (list N) :=
+  let* bytes := load inp 0 16 in
+  let lo_nibbles := mm_and bytes (set1_epi8 16 0x0F) in
+  let hi_nibbles := mm_and (mm_srli_epi16 bytes 4) (set1_epi8 16 0x0F) in
+  let interleaved_lo := mm_unpacklo_epi8 lo_nibbles hi_nibbles in
+  let interleaved_hi := mm_unpackhi_epi8 lo_nibbles hi_nibbles in
+  Ok (mm512_cvtepu8_epi32 interleaved_lo ++ mm512_cvtepu8_epi32 interleaved_hi).
